@@ -49,7 +49,7 @@ PROPS["C09"] = dict(
     rule="random call histories (mov/read/write/make_accessible/check/set_current_ptr/check_ptr) with offsets of both "
          "signs up to 1e5, both-sided growth; compared step by step incl. (size, offset) after every call; the harness "
          "also checks a shadow-map oracle (reads return last written value; reads never change the layout; "
-         "make_accessible range checks true). Non-trivial = at least one operation; distinct = distinct histories.",
+         "make_accessible range checks true). Four fixed histories with single steps beyond 2^29 cells run on the real code only and are judged by that oracle alone (c09_bigstep; the Array-based model cannot execute them). Non-trivial = at least one operation; distinct = distinct histories.",
     trusted_base=["the buffer is modelled as an Array (copy_to_nonoverlapping, alloc_zeroed, dealloc are not verified)"],
 )
 
@@ -307,6 +307,7 @@ def c05_divergence(run, harnesses):
 
 
 import cli_tie, mem_ties
+PROPS["C09"]["extra"] = [mem_ties.c09_bigstep]
 
 PROPS["C16"] = dict(
     modules=["Hpbf.Props.C16"],
@@ -786,8 +787,9 @@ PROPS["C02"] = dict(
 
 
 PROPS["C03"] = dict(
-    modules=["Hpbf.Props.C03", "Hpbf.Props.C03Flow", "Hpbf.Props.C03Total", "Hpbf.Props.C11", "Hpbf.Props.C11Full", "Hpbf.Props.Chain", "Hpbf.Props.ChainTotal", "Hpbf.Props.ChainO1", "Hpbf.Props.ChainOn", "Hpbf.Props.ChainFinal", "Hpbf.Props.C03Conv", "Hpbf.Props.ChainFinal2"],
-    theorems=t("Hpbf.Chain", "jit_final_converse jit_final_never_returns jit_final_same all_levels_all_backends_final2 all_levels_exists_final2 translate_window_final2 jitRange_window_of_length_final2 noNoop_translate") +
+    modules=["Hpbf.Props.C03", "Hpbf.Props.C03Flow", "Hpbf.Props.C03Total", "Hpbf.Props.C11", "Hpbf.Props.C11Full", "Hpbf.Props.Chain", "Hpbf.Props.ChainTotal", "Hpbf.Props.ChainO1", "Hpbf.Props.ChainOn", "Hpbf.Props.ChainFinal", "Hpbf.Props.C03Conv", "Hpbf.Props.ChainFinal2", "Hpbf.Props.JitRangeLen"],
+    theorems=t("Hpbf.Chain", "jitRange_shift_of_length jitRange_shift_of_length_opt jitRange_shift_of_length_translate translateE_mov_is_block_shift jitRange_shift_of_shiftBound optimizedF_shifts_le_length optimized_shifts_le_length jitRange_fields_of_length jitRange_of_length") +
+             t("Hpbf.Chain", "jit_final_converse jit_final_never_returns jit_final_same all_levels_all_backends_final2 all_levels_exists_final2 translate_window_final2 jitRange_window_of_length_final2 noNoop_translate") +
              t("Hpbf.C03", "conv_code_nonempty conv_progress conv_ret_unique conv_run_more conv_steps_lt conv_steps conv_run conv_diverges conv_run_entry conv_diverges_entry") +
              t("Hpbf.Chain", "jit_final_forward jit_final_unique jit_final_prefix jit_final_divergent jit_final_limited jit_final_limited_enough all_levels_all_backends") +
              t("Hpbf.Chain", "jit_anylevel_forward jit_anylevel_unique jit_anylevel_prefix jit_anylevel_divergent jit_anylevel_limited jit_anylevel_limited_enough anylevel_all_backends") +
